@@ -243,8 +243,18 @@ def sync_order_rule(ctx, rid, cls="Harvester"):
         tag = "in-memory data %s" % ("present" if mem == NOTNONE else "absent")
         loads = [(n, c) for n, c, nm in all_calls(ctx, f, g) if nm == "%s.%s.%s" % (FARM, cls, lname) and n.id in fl.visited]
         saves = [(n, c) for n, c, nm in all_calls(ctx, f, g) if nm == "%s.%s.%s" % (FARM, cls, sname) and n.id in fl.visited]
-        merges = [n for n in g.nodes if n.id in fl.visited and n.kind == "stmt" and isinstance(n.ast, ast.Assign) and norm(n.ast.targets[0]) == newv]
-        stores = [n for n in g.nodes if n.id in fl.visited and n.kind == "stmt" and isinstance(n.ast, ast.Assign) and any(path_key(t) == "self." + attr for t in n.ast.targets)]
+        def _is_merge(n):
+            if not (n.kind == "stmt" and isinstance(n.ast, ast.Assign)):
+                return False
+            if norm(n.ast.targets[0]) == newv:
+                return True
+            for c in ast.walk(n.ast.value):
+                if isinstance(c, ast.Call) and isinstance(c.func, ast.Attribute) and c.func.attr in ("concat", "merge", "combine_first", "copy") and \
+                        ("new_d" in norm(c) or attr in norm(c)):
+                    return True
+            return False
+        merges = [n for n in g.nodes if n.id in fl.visited and _is_merge(n)]
+        stores = [n for n in g.nodes if n.id in fl.visited and n.kind == "stmt" and isinstance(n.ast, ast.Assign) and any(path_key(t) == "self." + attr for t in n.ast.targets) and not _is_merge(n)]
         if not loads or not all(g.completes_before(loads[0][0].id, m.id, feasible=fl.feasible) for m in merges) or not merges:
             rr.bad(ctx.finding(rid, f, f.node, "with sync and %s, %s does not (re)load the on-disk data before merging: data written by another %s object / session on the same file is silently dropped at the next save" % (tag, mname, cls),
                                construct="no-reload " + ("mem" if mem == NOTNONE else "nomem")), "%s reload [%s]" % (mname, tag))
@@ -263,7 +273,8 @@ def sync_order_rule(ctx, rid, cls="Harvester"):
             rr.bad(ctx.finding(rid, f, f.node, "with sync, %s does not save after merging on every normal path" % mname, construct="no-save-after-merge"), "%s saves [%s]" % (mname, tag))
         else:
             sv = arg(saves[0][1], 0)
-            if sv is None or norm(sv) != newv:
+            merged_into_self = any(any(path_key(t) == "self." + attr for t in m.ast.targets) for m in merges)
+            if (sv is None and not merged_into_self) or (sv is not None and norm(sv) != newv and not _expands_to(f, sv, {newv})):
                 rr.bad(ctx.finding(rid, f, saves[0][1], "%s saves `%s`, not the merged data" % (mname, norm(sv) if sv else None), construct="save-arg"), "%s save arg" % mname)
             else:
                 rr.ok("%s [%s]: %s(%s) after the merge on every normal path" % (mname, tag, sname, newv))
@@ -346,35 +357,61 @@ def engine_tables_rule(ctx, rid):
             rr.bad(ctx.finding(rid, f, f.node, "%s dispatches on engine(s) %s that have no entry in the extension table" % (fn, sorted(unknown)), construct="engine-unknown " + fn), "%s engines" % fn)
         else:
             rr.ok("%s dispatches on %s, all in the extension table; the rest go to xarray's netCDF path" % (fn, sorted(special)))
-    # auto_add_extension: adds iff no known extension present
+    # auto_add_extension: adds the engine's extension iff the name contains no known extension
     aae = prog.need_func(NORMALISER)
-    ctx.touch(aae)
-    g = build_cfg(aae.node)
-    t = [n for n in g.nodes if n.kind == "test"]
-    okaae = len(t) == 1 and norm(t[0].ast) == "not any((ext in file_name for ext in _engine_extensions.values()))"
-    add = [n for n in g.nodes if n.kind == "stmt" and norm(n.ast) == "file_name += extension"]
-    d = single_def(aae, "extension")
-    if okaae and add and d and norm(d[1]) == "_engine_extensions[engine]":
-        rr.ok("auto_add_extension appends _engine_extensions[engine] iff the name contains no known extension")
+    fam = [aae] + [x for x in ctx.res.slice([aae]) if x.module is aae.module and x is not aae]
+    for x in fam:
+        ctx.touch(x)
+    sub_tests, bad_tests = [], []
+    for fn in fam:
+        for n in ast.walk(fn.node):
+            if isinstance(n, ast.Compare) and len(n.ops) == 1 and isinstance(n.ops[0], (ast.In, ast.NotIn)) and isinstance(n.left, ast.Name):
+                # `ext in file_name` with ext ranging over the extension table
+                rng = None
+                for lp in ast.walk(fn.node):
+                    if isinstance(lp, (ast.For, ast.comprehension)) and isinstance(lp.target, ast.Name) and lp.target.id == n.left.id:
+                        rng = norm(lp.iter)
+                if rng == "_engine_extensions.values()" and isinstance(n.comparators[0], ast.Name):
+                    sub_tests.append(n)
+            if isinstance(n, ast.Call) and isinstance(n.func, ast.Attribute) and n.func.attr in ("endswith", "startswith") and fn in fam:
+                bad_tests.append((fn, n))
+    appended = any("_engine_extensions[engine]" in norm(n) for fn in fam for n in ast.walk(fn.node) if isinstance(n, (ast.AugAssign, ast.Assign, ast.Return, ast.BinOp)))
+    if bad_tests:
+        fn, n = bad_tests[0]
+        rr.bad(ctx.finding(rid, fn, n, "auto_add_extension decides with `%s` instead of 'the name contains a known extension': names such as data.h5.tmp or data.h5.BAK-... get a second extension, so saving, loading, merging and deleting no longer agree on the file" % norm(n), construct="auto-add-extension"), "auto_add_extension")
+    elif sub_tests and appended:
+        rr.ok("auto_add_extension appends _engine_extensions[engine] iff no known extension occurs in the name")
     else:
-        rr.bad(ctx.finding(rid, aae, aae.node, "auto_add_extension no longer appends exactly the engine's extension when (and only when) the name has none", construct="auto-add-extension"), "auto_add_extension")
-    # attribute rewriting
+        raise AnalysisError("idiom changed: auto_add_extension")
+    # attribute rewriting: exactly None / True / False by identity, netCDF engines only
     sd = prog.need_func(MAN + ".save_ds")
-    g = build_cfg(sd.node)
-    guards = [n for n in g.nodes if n.kind == "test" and norm(n.ast) == "engine not in {'joblib', 'zarr'}"]
-    stores = [n for n in g.nodes if n.kind == "stmt" and isinstance(n.ast, ast.Assign) and norm(n.ast.targets[0]) == "ds.attrs[attr]"]
-    tests = [n for n in g.nodes if n.kind == "test" and norm(n.ast).startswith("val ")]
-    want_tests = {"val is None": "'None'", "val is True": "'True'", "val is False": "'False'"}
-    got = {}
-    for tnode in tests:
-        for b, l in g.succ[tnode.id]:
-            if l == "t" and g.nodes[b] in stores:
-                got[norm(tnode.ast)] = norm(g.nodes[b].ast.value)
-    if got == want_tests and guards and all(g.dominates(guards[0].id, s.id) for s in stores):
-        rr.ok("attribute rewriting: exactly None / True / False (identity tests) -> their names, netCDF engines only")
+    fam = [sd] + [x for x in ctx.res.slice([sd]) if x.module is sd.module and x is not sd and x is not aae]
+    ident, loose, stores = [], [], {}
+    for fn in fam:
+        ctx.touch(fn)
+        for n in ast.walk(fn.node):
+            if isinstance(n, ast.If) and isinstance(n.test, ast.Compare) and len(n.test.ops) == 1 and isinstance(n.test.left, ast.Name) and n.test.left.id == "val":
+                op = n.test.ops[0]
+                cv = n.test.comparators[0]
+                if isinstance(op, ast.Is) and isinstance(cv, ast.Constant) and (cv.value is None or cv.value is True or cv.value is False):
+                    ident.append((fn, n))
+                    for st_ in n.body:
+                        if isinstance(st_, ast.Assign) and isinstance(st_.targets[0], ast.Subscript) and isinstance(st_.value, ast.Constant):
+                            stores[repr(cv.value)] = st_.value.value
+                elif isinstance(op, (ast.Eq, ast.In)):
+                    loose.append((fn, n))
+    if loose:
+        fn, n = loose[0]
+        rr.bad(ctx.finding(rid, fn, n.test, "attributes are rewritten under `%s` instead of the identity tests `val is None / True / False`: an == / `in` test also rewrites the numbers 0, 1, 0.0, 1.0 to 'False' / 'True'" % norm(n.test), construct="attr-rewrite-tests"), "attr rewriting")
+    elif len(ident) == 3 and stores == {"None": "None", "True": "True", "False": "False"}:
+        g = build_cfg(sd.node)
+        guards = [n for n in g.nodes if n.kind == "test" and "engine" in norm(n.ast) and "joblib" in norm(n.ast) and "zarr" in norm(n.ast)]
+        if guards:
+            rr.ok("attribute rewriting: exactly None / True / False (identity tests) -> their names, under the non-joblib / non-zarr guard")
+        else:
+            rr.bad(ctx.finding(rid, sd, sd.node, "attributes are rewritten for every engine, not only for the netCDF ones", construct="attr-rewrite-guard"), "attr rewriting guard")
     else:
-        rr.bad(ctx.finding(rid, sd, tests[0].ast if tests else sd.node, "attributes are rewritten under %s instead of exactly the identity tests `val is None / True / False` (e.g. an == / `in` test also rewrites 0, 1, 0.0, 1.0)" % got,
-                           construct="attr-rewrite-tests"), "attr rewriting")
+        raise AnalysisError("idiom changed: attribute rewriting in save_ds (%d identity tests, stores %s)" % (len(ident), stores))
     return rr
 
 
